@@ -261,7 +261,16 @@ impl Parser {
                                     o.push(x);
                                 }
                             }
-                            Resolved::Undeclared => return self.undeclared(ctx, amp),
+                            Resolved::Undeclared => {
+                                if ctx == "attlist-default" {
+                                    // Reached only through another entity's replacement
+                                    // text; whether "declared before the ATTLIST" applies
+                                    // to such indirect references is arguable.  Decline.
+                                    return self
+                                        .outside("indirect-undeclared-entity-in-attlist-default", amp);
+                                }
+                                return self.undeclared(ctx, amp);
+                            }
                             Resolved::Declared(j) => {
                                 if let Some(t) = stack.last_mut() {
                                     t.1 = c.pos;
